@@ -6,13 +6,29 @@ NOTES = ("Solver-based checking of the real code. Exit codes: 0 holds within the
 ENGINES = [
     {"name": "symnp+shadow", "path": "engine/symnp.py, engine/shadow.py", "serves_properties": ["C04"],
      "kind_free_text": "the current source of _type_casting/_core/serde is recompiled into shadow modules whose numpy/mmap/open/os globals are shims over z3 bit-vector cells and z3 arrays; the real tensor code then runs on fully symbolic payloads, offsets and file contents"},
-    {"name": "hist (on zsym)", "path": "engine/hist.py, engine/irlib.py", "serves_properties": ["C01", "C06"],
+    {"name": "hist (on zsym)", "path": "engine/hist.py, engine/irlib.py", "serves_properties": ["C01", "C06", "C11", "C12"],
      "kind_free_text": "bounded edit histories over the real IR classes with symbolic operand selectors and payload ints; z3 decides path feasibility, every feasible path is explored and its witness re-executed natively (guard against proxy intolerance)"},
     {"name": "zsym", "path": "engine/zsym.py", "serves_properties": ["C04", "C07", "C10"],
      "kind_free_text": "execution of the real functions on z3 Int/Real/String proxies with re-execution DFS over branch decisions; property = SMT query per path"},
 ]
 NOT_APPLICABLE = {}
 CHECKS = {
+    "C11": dict(
+        engine="hist (on zsym)", level="other", design_ref="DESIGN.md section 4 / C11",
+        technique="symbolic execution (zsym/z3) of bounded interleavings of edits and iterator steps on the real Graph/Function/linked list; rule-based cursor model as oracle; per-path native re-execution",
+        text=("Every interleaving (within the bound) of append/extend/insert_before/insert_after/remove/move/sort with next() on four simultaneous iterators (two forward, one backward, one recursive) "
+              "is explored from 8 initial sequences; a cursor model stated without link boxes predicts every yielded node; list/len/indexing/reversed/membership must describe the reference sequence "
+              "after every edit; after the last edit every iterator is drained and must terminate."),
+        note="Trusted: z3; proxies cross-checked per path; after a sort only the generic rules (membership at yield, no error, termination) are asserted. More iterators / longer histories are outside the bound.",
+    ),
+    "C12": dict(
+        engine="hist (on zsym)", level="other", design_ref="DESIGN.md section 4 / C12",
+        technique="symbolic execution (zsym/z3) of Graph.sort/Function.sort/TopologicalSortPass over graphs with symbolic dependency edges, captures and initial order; reference-checked result orders",
+        text=("All directed graphs (cyclic ones included) on up to 3 nodes and all DAG edge sets on 4 nodes, times every initial permutation, plus nested families (depth 2 and 3) with symbolic captures, "
+              "are sorted by the real code: the result must order every graph w.r.t. same-graph producers of everything used in or below each node, keep each graph's node set, leave an already ordered model "
+              "untouched, be idempotent and identical for an identical graph, agree between Graph.sort, Function.sort and the pass; a cycle must raise ValueError with no order changed."),
+        note="Trusted: z3; the reference needs/order/cycle definitions (DFS over public accessors). Larger graphs and GRAPHS attributes are outside the bound.",
+    ),
     "C01": dict(
         engine="hist (on zsym)", level="other", design_ref="DESIGN.md section 4 / C01",
         technique="symbolic execution (zsym/z3) of bounded edit histories over the real IR classes; invariant I(U) on every feasible path; per-path native re-execution",
